@@ -73,7 +73,7 @@ for _p, _txt in (('C02', 'every dial of every generated spec must complete the h
                  ('C11', 'cipher suites, extension order and bodies and the transport parameter list on the wire equal the spec (or a permutation when randomised); TransportParameterIDs() and the reference fingerprint agree with the wire')):
     PROPS[_p] = {
         'level': 'exploration', 'budget': {'quick': 75, 'thorough': 1500},
-        'parts': [{'sim': 'dial', 'env': {'VERIF_ORACLES': _p}}] + ([{'sim': 'flightlab'}] if _p == 'C09' else []) + ([{'sim': 'tpshuffle', 'share': 0.4}] if _p == 'C11' else []) + ([{'sim': 'nilspec', 'share': 0.3}] if _p == 'C02' else []),
+        'parts': [{'sim': 'dial', 'env': {'VERIF_ORACLES': _p}}] + ([{'sim': 'flightlab'}] if _p == 'C09' else []) + ([{'sim': 'tpshuffle', 'share': 0.4}] if _p == 'C11' else []) + ([{'sim': 'nilspec', 'share': 0.25}, {'sim': 'nilspechs', 'share': 0.2}] if _p == 'C02' else []),
         'rule': DIAL_RULE, 'real_vs_stub': 'real: UTransport + spec machinery + uTLS + in-tree server; stub: network, clock, randomness (seeded), certificates',
         'assumptions': ['expected ClientHello extension bodies are read from the spec objects uTLS serialised for that dial'],
         'level_text': 'seeded search over spec families, dial histories and first-flight fault schedules on whole connections: ' + _txt,
@@ -163,7 +163,8 @@ PROPS['C14'] = {
 
 PROPS['C11']['rule'] += '; W:tpshuffle: 1200 (thorough: 6000) dial captures per run of one spec value with a 4-5 element parameter list: every permutation occurs, position frequencies within 8 standard deviations, consecutive repeats at chance level'
 PROPS['C02']['rule'] += ('; W:nilspec (differential): one transfer scenario executed through a plain Transport and through UTransport{QUICSpec: nil} in two bubbles with identical clock origin and identically '
-                         'reseeded seams: wire history (instants, sizes, packet types and numbers, frames, fates) and application outcome must be identical')
+                         'reseeded seams: wire history (instants, sizes, packet types and numbers, frames, fates) and application outcome must be identical; W:nilspechs: the same differential over the handshake workload '
+                         '(resumption, DialEarly with 0-RTT accepted / rejected, Retry, version negotiation, fault schedules on the handshake datagrams)')
 PROPS['C09']['rule'] += ('; K:flightlab: real initialCryptoStream + packetPacker/uPacketPacker + ack handler with a model TLS stack (ClientHello 0 bytes - 4 datagrams, SNI/ECH at varying positions, '
                          'HelloRetryRequest), every builder kind with seeded parameterisations incl. negative ranges and invalid configurations, a lossy model peer, PTO and retransmission re-framing; '
                          'every datagram parsed by the wire parser and by an independent byte reader')
